@@ -98,7 +98,9 @@ func (scb *SchemaClientBoundImpl) Retrieve(ctx context.Context, path *sdcpb.Path
 	})
 	entry.schemaRsp = schema
 	entry.err = err
-	entry.ready = true
+	// only a successful lookup is kept, a failed one (the schema server might just be
+	// temporarily unavailable) is to be retried with the next request.
+	entry.ready = err == nil
 
 	return entry.Get()
 }
